@@ -87,7 +87,23 @@ def gen_case(seed, tier="quick"):
     base = {"format": 1, "property": ID, "seed": seed, "rng": H(seed, "rng"), "fault": None}
     if c < 0.88:
         # (iii) pooled mean count of rejection-based shapes and Boolean combinations (parameter free)
-        if r.random() < 0.3:
+        rin = rnd(seed, "inner-union")
+        if rin.random() < 0.25:
+            # a union whose second operand lies INSIDE the first (an inclusion): the measure is |A|, every point of B
+            # is a duplicate candidate
+            if rin.random() < 0.5:
+                ox, oy, w, h = GG.q(rin.uniform(-2, 1)), GG.q(rin.uniform(-2, 1)), GG.q(rin.uniform(1.5, 3)), GG.q(rin.uniform(1.5, 3))
+                A = {"k": "par", "var": "x", "o": [ox, oy], "c1": [ox + w, oy], "c2": [ox, oy + h]}
+                cx, cy, rr = ox + w / 2, oy + h / 2, GG.q(min(w, h) * rin.uniform(0.15, 0.4))
+            else:
+                cx, cy, R = GG.q(rin.uniform(-2, 2)), GG.q(rin.uniform(-2, 2)), GG.q(rin.uniform(1.0, 2.0))
+                A = {"k": "circ", "var": "x", "c": [cx, cy], "r": R}
+                rr = GG.q(R * rin.uniform(0.2, 0.6))
+            Bn = {"k": "circ", "var": "x", "c": [GG.q(cx), GG.q(cy)], "r": rr} if rin.random() < 0.6 else \
+                {"k": "par", "var": "x", "o": [GG.q(cx - rr / 2), GG.q(cy - rr / 2)], "c1": [GG.q(cx + rr / 2), GG.q(cy - rr / 2)],
+                 "c2": [GG.q(cx - rr / 2), GG.q(cy + rr / 2)]}
+            dom = {"k": "union", "a": A, "b": Bn}
+        elif r.random() < 0.3:
             dom = GG.gen_par(r, "x", tri=True)
         else:
             dom = None
